@@ -1,7 +1,8 @@
 """C09 — bounded stand-in on temporary trees (runtime/h_fs.py)."""
 ID = "C09"
 LEVEL = "exploration"
-FUNCTIONS = []
+FUNCTIONS = ['codelimit.commands.scan:_read_cached_report', 'codelimit.common.Scanner:_scan_file']
+BOUNDED_SKIP = ['codelimit.commands.scan:_read_cached_report', 'codelimit.common.Scanner:_scan_file']
 TRUSTED = ["the file system of the sandbox; Pygments; pathspec"]
 ASSUMPTIONS = []
 BOUND = 'universe of 3 paths x 4 contents; 13 operations (write, delete, rename incl. across languages, touch, swap, toggle exclusion, replace cache by a poisoned one of another version / with wrong checksums); all single operations, every 3rd ordered pair (thorough: all pairs), 30 random histories of 3..6 operations (thorough 400); after every operation a real scan_command is compared with a from-scratch scan of a copy; read_report on 4 foreign versions'
